@@ -26,7 +26,7 @@ use solana_program::{
 };
 use std::collections::BTreeMap;
 
-const RULE: &str = "worlds sampled by proptest (token program, oracle kind, decimals, prices, fee settings, permissionless-bankruptcy flag per world; main group + mirrored foreign group on the same mints); per world the matrix is enumerated COMPLETELY: every non-venue instruction x account-state variant {normal, frozen, in receivership, disabled, after an empty receivership bracket, after a used one} x {every signer identity x signature bit set/cleared, every non-free slot x every applicable substitute}; expectation from the hand-written role table / slot-binding table; non-trivial = an asserted (must-fail) cell whose instruction's baseline call succeeded in that world";
+const RULE: &str = "worlds sampled by proptest (token program, oracle kind, decimals, prices, fee settings, permissionless-bankruptcy flag per world; main group + mirrored foreign group on the same mints); per world the matrix is enumerated COMPLETELY: every non-venue instruction x account-state variant {normal, frozen, in receivership, disabled, after an empty receivership bracket, after a used one, after whatever hostile multi-start transaction ([start(D), (short ix), start(D2), (withdraw(D)), end(D2)] and permutations) the program lets commit} x {every signer identity x signature bit set/cleared, every non-free slot x every applicable substitute}; expectation from the hand-written role table / slot-binding table; non-trivial = an asserted (must-fail) cell whose instruction's baseline call succeeded in that world";
 
 // bank indices
 const B_COL: usize = 0; // collateral of A, fixed oracle
@@ -1288,6 +1288,38 @@ pub fn build_cases(e: &Env) -> Result<Vec<Case>, String> {
             user_cases(&mut mk, "after-used-receivership", &vm, U_D, e.auth(U_D), B_DCOL, &[], &[], false, false, 6);
             if vm.exec(&topup).is_ok() {
                 user_cases(&mut mk, "after-used-receivership+topup", &vm, U_D, e.auth(U_D), B_DCOL, &[], &[], false, true, 8);
+            }
+        }
+    }
+    // ================= AFTER a hostile multi-start transaction =================
+    // "strictly inside an active receivership": a transaction that opens a bracket on D and closes only ANOTHER account's
+    // must not commit; whatever the program lets commit, D is its authority's alone afterwards - every signer cell of the
+    // user instructions is evaluated on the resulting state (no baseline demanded: D is still unhealthy).
+    {
+        let d2 = e.a(U_D2);
+        let start2 = m.ix_start_liquidation(d2, rc);
+        let end2 = m.ix_end_liquidation(d2, rc, m.risk_metas(&d2, None, None));
+        // a short (< 8 bytes of data) top-level instruction of an allow-listed program, e.g. an ATA CreateIdempotent
+        let short = Instruction { program_id: crate::svm::proxy_id_allowed(), accounts: vec![], data: vec![1] };
+        let pair = {
+            let mut v = vec![AccountMeta::new_readonly(m.banks[B_DCOL].key, false)];
+            if m.banks[B_DCOL].oracle_kind != 0 {
+                v.push(AccountMeta::new_readonly(m.banks[B_DCOL].oracle_key, false));
+            }
+            v
+        };
+        let wd = m.ix_withdraw_with(d, rc, B_DCOL, e.tok(&rc, B_DCOL), tokn(B_DCOL, 60), None, pair);
+        let shapes: Vec<(u64, Vec<Instruction>)> = vec![
+            (20, vec![start.clone(), start2.clone(), end2.clone()]),
+            (21, vec![start.clone(), short.clone(), start2.clone(), end2.clone()]),
+            (22, vec![start.clone(), short.clone(), start2.clone(), wd.clone(), end2.clone()]),
+            (23, vec![start.clone(), wd.clone(), short.clone(), start2.clone(), end2.clone()]),
+            (24, vec![start2.clone(), short.clone(), start.clone(), end.clone()]),
+        ];
+        for (tag, shape) in shapes {
+            let mut vm = base.clone();
+            if vm.exec_tx(&shape).ok {
+                user_cases(&mut mk, "after-multi-start-transaction", &vm, U_D, e.auth(U_D), B_DCOL, &[], &[], false, false, tag);
             }
         }
     }
